@@ -142,13 +142,20 @@ func c17Exec(rcx *RunCtx, sched *simrt.Tape, batch []rc.Message, sock bool, seg 
 			if endAt >= 0 {
 				// (generic path: the bytes before the cut may arrive together
 				// with the EOF, which must not make them a whole message)
+				simrt.Fault("transport.stream-ends-inside-a-frame")
 				if !sock {
 					c.Net.C2S.EOFWithData = halfClose == 2
+					if halfClose == 2 {
+						simrt.Fault("transport.last-bytes-together-with-eof")
+					}
 					c.Net.C2S.CloseWrite() // at once: the receiver has not read anything yet
 				}
 				c.Close()
 			} else if halfClose > 0 && !sock {
 				c.Net.C2S.EOFWithData = halfClose == 2
+				if halfClose == 2 {
+					simrt.Fault("transport.last-bytes-together-with-eof")
+				}
 				c.Net.C2S.CloseWrite()
 			}
 			simrt.WaitQuiescent()
